@@ -11,6 +11,7 @@ import (
 	"sort"
 	"strings"
 	"sync"
+	"sync/atomic"
 	"time"
 
 	"github.com/kelindar/column"
@@ -308,6 +309,8 @@ func newStats() *Stats {
 }
 
 type World struct {
+	stepMu   sync.Mutex
+	doing    string
 	rng      *Rng
 	prof     Profile
 	opts     column.Options
@@ -376,8 +379,16 @@ func (w *World) allCols() []Col {
 }
 
 func (w *World) emit(format string, a ...interface{}) {
+	w.stepMu.Lock()
 	w.steps = append(w.steps, fmt.Sprintf(format, a...))
+	w.stepMu.Unlock()
 	w.stats.Steps++
+}
+
+func (w *World) setDoing(format string, a ...interface{}) {
+	w.stepMu.Lock()
+	w.doing = fmt.Sprintf(format, a...)
+	w.stepMu.Unlock()
 }
 
 func (w *World) newCollection() *column.Collection {
@@ -1554,9 +1565,17 @@ var capacities = []int{1, 64, 1000, 1024, 16384, 20000, 40000}
 
 // newWorld creates a collection with a random schema (and optionally seeded blocks)
 func newWorld(seed uint64, idx int, prof Profile, stats *Stats, withReplica bool) *World {
+	return newWorldHooked(seed, idx, prof, stats, withReplica, nil)
+}
+
+func newWorldHooked(seed uint64, idx int, prof Profile, stats *Stats, withReplica bool, cur *atomic.Pointer[World]) *World {
 	rng := NewRng(seed).Fork(uint64(idx))
 	w := &World{rng: rng, prof: prof, stats: stats, prev: map[uint32]rowObs{}, prevKeys: map[string]uint32{},
 		trig: map[int][]string{}, nextID: 1, everDel: map[uint32]bool{}, lastIDs: map[uint32]uint64{}, allIDs: map[uint64]bool{}}
+	if cur != nil {
+		cur.Store(w)
+	}
+	w.setDoing("setting the collection up (columns, computed columns, seeded blocks)")
 	w.opts = column.Options{Capacity: capacities[rng.Intn(len(capacities))]}
 	w.logger = &recLogger{w: w}
 	if rng.Bool() {
@@ -1628,6 +1647,10 @@ func (w *World) close() {
 
 // runCase generates and executes one history; returns the Gallina list of steps.
 func runCase(seed uint64, idx int, prof Profile, stats *Stats) (text string, notes []string, panicked string) {
+	return runCaseHooked(seed, idx, prof, stats, nil)
+}
+
+func runCaseHooked(seed uint64, idx int, prof Profile, stats *Stats, cur *atomic.Pointer[World]) (text string, notes []string, panicked string) {
 	var w *World
 	defer func() {
 		if r := recover(); r != nil {
@@ -1641,9 +1664,10 @@ func runCase(seed uint64, idx int, prof Profile, stats *Stats) (text string, not
 			w.close()
 		}
 	}()
-	w = newWorld(seed, idx, prof, stats, prof.ReplicaPct > 0)
+	w = newWorldHooked(seed, idx, prof, stats, prof.ReplicaPct > 0, cur)
 	rng, kinds := w.rng, w.kinds()
 	for t := 0; t < prof.Txns; t++ {
+		w.setDoing("transaction %d of the history (or the schema step, restore or replica check around it)", t)
 		if rng.Chance(prof.SchemaPct) && !prof.NoComputed {
 			switch rng.Intn(5) {
 			case 0:
